@@ -37,6 +37,8 @@ type World struct {
 	InvFail    []string
 	// FrameMutations: frames that changed between Send and delivery (see memconn)
 	FrameMutations []string
+	// ContractViolations: concurrent calls grpc does not allow on one stream (see memconn)
+	ContractViolations []string
 }
 
 // Event is one application-level observation.
